@@ -47,6 +47,23 @@ class SList:
         return f"SList<{self.sym.t}>"
 
 
+class CharSet:
+    """frozenset(<symbolic string>): the set of characters of a string; membership of a one-character string = Contains"""
+
+    def __init__(self, t):
+        self.t = t
+
+    def __repr__(self):
+        return f"CharSet<{self.t}>"
+
+
+class IntersectsGen:
+    """the generator (c in <CharSet> for c in <symbolic string>), only consumable by any()"""
+
+    def __init__(self, s, charset):
+        self.s, self.charset = s, charset
+
+
 class SOpt:
     def __init__(self, is_none, val):
         self.is_none, self.val = is_none, val
